@@ -570,6 +570,9 @@ def gen_dataset(rng, k):
     kind = kinds[k % len(kinds)]
     family = "billing" if k % 4 == 3 else "daily"
     profile = rng.choice(["current", "current", "legacy"]) if family == "daily" else "billing"
+    if k <= -2000:  # the billing-settings profile (BillingWeightedModel: one row per billing period, segment_minimum_count 3)
+        return {"kind": rng.choice(["both", "heating_only", "cooling_only"]), "family": "billing_weighted", "profile": "billing_settings",
+                "seed": rng.randrange(2**31), "ndays": 365, "noise": rng.choice([0.01, 0.03]), "nperiods": rng.choice([11, 12, 12, 13])}
     if k <= -1000:  # baselines whose best split has three components in non-sorted insertion order
         return {"kind": "weekday_season_split", "family": "daily", "profile": "current", "seed": rng.randrange(2**31),
                 "ndays": 365, "noise": 0.0}
@@ -636,6 +639,28 @@ def build_and_fit(ds):
     import fitlib
     from opendsm.eemeter import BillingModel, DailyModel
     rng = random.Random(ds["seed"])
+    if ds["family"] == "billing_weighted":
+        import contextlib
+        import io
+        from opendsm.eemeter.models.billing import BillingWeightedModel
+        kw = {"both": {}, "heating_only": {"bc": 0.0}, "cooling_only": {"bh": 0.0}}[ds["kind"]]
+        import pandas as pd
+        starts = [pd.Timestamp("2021-12-15", tz="US/Pacific")]
+        for _ in range(ds["nperiods"]):
+            starts.append((starts[-1] + pd.Timedelta(days=rng.randrange(28, 33))).normalize())
+        nd = (starts[-1] - starts[0]).days + 2
+        didx = pd.date_range(starts[0], periods=nd, freq="D", tz="US/Pacific")
+        T = fitlib.weather_daily(rng, nd)
+        daily = pd.Series(fitlib.usage_from_temp(rng, T, noise=ds["noise"], **kw), index=didx)
+        vals = [daily[(daily.index >= a) & (daily.index < b)].sum() for a, b in zip(starts[:-1], starts[1:])] + [np.nan]
+        meter = pd.Series(vals, index=pd.DatetimeIndex(starts), name="observed")
+        hidx = pd.date_range(starts[0], periods=nd * 24, freq="h", tz="US/Pacific")
+        temp = pd.Series(np.repeat(T, 24)[: len(hidx)], index=hidx, name="temperature")
+        data = fitlib.billing_baseline(meter, temp)
+        with contextlib.redirect_stdout(io.StringIO()):
+            model = BillingWeightedModel()
+        model.fit(data, ignore_disqualification=True)
+        return model, data
     if ds["kind"] == "weekday_season_split":
         # closed at weekends; weekdays follow a cooling regime June-September and a heating regime otherwise: the selected
         # combination has >= 3 components whose insertion order is not the sorted one (wd-su__wd-sh_wi__we-su_sh_wi)
@@ -681,9 +706,13 @@ def build_and_fit(ds):
     return model, data
 
 
-def stream_fits(run, n, n_reused=0, n_split=0):
+OVERRIDDEN_BY_FIT = {"developer_mode", "silent_developer_mode", "alpha_final_type", "final_bounds_scalar", "regularization_alpha"}
+
+
+def stream_fits(run, n, n_reused=0, n_split=0, n_weighted=0):
     acc = {"refine": [], "curves": [], "meta": []}
-    for k in list(range(n)) + [-(j + 1) for j in range(n_reused)] + [-(1000 + j) for j in range(n_split)]:
+    for k in (list(range(n)) + [-(j + 1) for j in range(n_reused)] + [-(1000 + j) for j in range(n_split)] +
+              [-(2000 + j) for j in range(n_weighted)]):
         ds = gen_dataset(run.rng, k)
         try:
             model, data = build_and_fit(ds)
@@ -720,7 +749,20 @@ def stream_fits(run, n, n_reused=0, n_split=0):
             obs, tc = process_component(run, acc, key, raw, res.T, info, res, "fits", label, model_vals=res.model, q=q)
             run.count(vlib.sha([ds, where, comp]), key != "tidd")
             # recorded limits are those of the days the component was fitted on
-            n_seg = res.settings.segment_minimum_count
+            # the segment count the model DECLARES (model.settings == to_dict()['settings']), not the component's copy
+            n_seg = model.settings.segment_minimum_count
+            declared, effective = model.settings.model_dump(), res.settings.model_dump()
+            lost = sorted(f for f in declared if f not in OVERRIDDEN_BY_FIT and effective.get(f) != declared[f])
+            if lost:
+                run.violation(dict(sig, clause="component fitted under the declared settings", fields=",".join(lost),
+                                   **{"class": "admissibility"}),
+                              "C12 %s: the settings the component was fitted with differ from the model's declared settings in %s"
+                              % (label, lost), case={"dataset": ds, "component": comp},
+                              observation={f: [str(declared[f]), str(effective.get(f))] for f in lost}, generator="c12.fits")
+            if not (tc[0] <= tc[2] <= tc[3] <= tc[1]):
+                run.violation(dict(sig, clause="recorded temperature limits are ordered", **{"class": "admissibility"}),
+                              "C12 %s: recorded limits are not T_min <= T_min_seg <= T_max_seg <= T_max" % label,
+                              case={"dataset": ds, "component": comp}, observation={"recorded": tc}, generator="c12.fits")
             want = [float(np.min(seg)), float(np.max(seg)), float(np.partition(seg, n_seg)[n_seg]),
                     float(np.partition(seg, -n_seg)[-n_seg])]
             if want != tc:
@@ -849,7 +891,9 @@ def main():
         "(both / heating-only / cooling-only / flat / inverted = peaking in mild weather / no-flat-region / weekend / outliers; 330-365 days; noise 1-20 %; current, "
         "legacy and billing profiles), plus REUSED estimator objects (one DailyModel/BillingModel fitted in a cold heating climate and "
         "then in a warm cooling climate; oracle against the data object of the last fit) and baselines whose selected split has three "
-        "components in non-sorted insertion order (closed at weekends, weekday cooling regime Jun-Sep / heating otherwise); every OptimizedResult of fit_components and "
+        "components in non-sorted insertion order (closed at weekends, weekday cooling regime Jun-Sep / heating otherwise) and the "
+        "billing-settings profile (BillingWeightedModel on 11-13 billing periods; limits judged with the DECLARED segment_minimum_count, "
+        "component settings compared with the declared ones); every OptimizedResult of fit_components and "
         "model is one evaluation; the days of a component are recomputed from the data object, not read from the model. bounds: start boxes and "
         "get_bnds(x0) rows with every degenerate pattern (zero slopes -> [0,0], identical non-zero, [0,2x0], [2x0,0], reversed, "
         "negative, equal balance-point limits, identical quantiles, new_bnds=None) through the three *_update_bnds functions as "
@@ -893,7 +937,7 @@ def main():
         stream_from_np(run, run.n(400, 10000))
         stream_params_order(run, run.n(24, 600))
     if os.environ.get("C12_NOFITS") != "1":
-        stream_fits(run, run.n(10, 200), n_reused=run.n(3, 30), n_split=run.n(1, 12))
+        stream_fits(run, run.n(10, 200), n_reused=run.n(3, 30), n_split=run.n(1, 12), n_weighted=run.n(2, 20))
     run.finish()
 
 
